@@ -4,7 +4,7 @@ from __future__ import annotations
 from typing import Any, Dict, List
 
 from ..sim.gen import profile
-from .simprop import (DRAIN, SimEngine, blocked_spawners_family, close_overlap_family, double_cancel_family, flush_raises_family, flush_vs_spawner_family, name_reuse_family, rejected_then_cancel_family, thousand_tasks_family, overlap_family, sweep_space,
+from .simprop import (DRAIN, SimEngine, abandon_then_close_family, blocked_spawners_family, close_overlap_family, double_cancel_family, flush_raises_family, flush_vs_spawner_family, name_reuse_family, rejected_then_cancel_family, thousand_tasks_family, overlap_family, sweep_space,
                       two_pools_family, worker_in_flush_family)
 
 FIN = [1, 1, 2, 2, 3, 4, 0, None]
@@ -102,10 +102,10 @@ def _c03() -> SimEngine:
 
 
 def _c04() -> SimEngine:
-    prof = profile(kinds=["apply"], sizes=[1, 1, 2, 2, 3, None], p_callfault=0.2, p_cb_raise=0.12, p_worker_raise=0.1, p_gname=0.3,
+    prof = profile(kinds=["apply"], sizes=[1, 1, 2, 2, 3, None], p_callfault=0.2, p_bad_return=0.1, p_cb_raise=0.12, p_worker_raise=0.1, p_gname=0.3,
                    ops={"lock": 1.2, "unlock": 0.8, "close": 0.8, "cancel": 1, "cancel_group": 0.5, "flush": 0.5, "spawn": 8, "gate": 8},
                    end_with_close=0.3)
-    simple = profile(classes=["SimpleTaskPool"], sizes=[1, 2, 2, 3, None], p_callfault=0.2, p_cb_raise=0.12, p_worker_raise=0.1,
+    simple = profile(classes=["SimpleTaskPool"], sizes=[1, 2, 2, 3, None], p_callfault=0.2, p_bad_return=0.1, p_cb_raise=0.12, p_worker_raise=0.1,
                      ops={"lock": 1.2, "unlock": 0.8, "close": 0.8, "cancel": 1, "stop": 0.6, "spawn": 8, "gate": 8}, end_with_close=0.3)
     return SimEngine(
         "C04",
@@ -190,7 +190,7 @@ def _c07() -> SimEngine:
 
 def _c08() -> SimEngine:
     prof = profile(sizes=[1, 2, 2, 3, None], end_with_close=0.9, p_cb=0.6, p_cb_wait=0.5,
-                   ops={"close": 1.5, "until_closed": 1.2, "cancel_group": 1.5, "cancel": 1, "spawn": 9, "gate": 8, "lock": 0.3, "flush": 0.5})
+                   ops={"close": 1.5, "until_closed": 1.2, "cancel_group": 1.5, "cancel": 1, "spawn": 9, "gate": 8, "lock": 0.3, "flush": 1.2, "abandon": 0.8})
 
     def sw(tier: str):
         perts = [{"op": "close", "pool": 0}, {"op": "close", "pool": 0, "re": True}]
@@ -258,7 +258,7 @@ def _c10() -> SimEngine:
 
 
 def _c11() -> SimEngine:
-    prof = profile(max_pools=3, sizes=[1, 2, 3, None, None], ops={"spawn": 10, "flush": 2, "cancel": 1.5, "cancel_group": 1, "gate": 7, "stop": 0.5,
+    prof = profile(max_pools=3, sizes=[1, 2, 3, None, None], p_bad_return=0.1, p_callfault=0.1, ops={"spawn": 10, "flush": 2, "cancel": 1.5, "cancel_group": 1, "gate": 7, "stop": 0.5,
                                                                   "new_pool": 1.2, "close": 1.0})
     return SimEngine(
         "C11",
@@ -349,7 +349,7 @@ _FX = ("flush-raises family (flush() raising over a failed task while a cancelle
 _RC = ("rejected-then-cancel family (a request rejected for each cause while a spawner waits, then the group cancelled or not)", lambda t: rejected_then_cancel_family(_thin(t, 2)))
 _FS = ("flush-vs-spawner family (flush/close waiting on a slow end callback while a waiting spawner is handed the freed room and is cancelled)", lambda t: flush_vs_spawner_family(_thin(t, 2)))
 _DC = ("double-cancel family (a task in its slow cancel callback is hit by a group / global / repeated cancellation, then flush or close)", lambda t: double_cancel_family(_thin(t, 2)))
-FAMILIES = {"C09": [_RC], "C01": [_FS], "C08": [_FS, _DC], "C02": [_BS, _FS, _DC], "C03": [_TP, _FX, _DC], "C04": [_NR, _BS], "C06": [_WF, _TP, _FR, _FX], "C13": [_FX], "C07": [_NR, _WF, _FS, _DC], "C10": [_NR], "C11": [_BS, _TP, ("thousand-tasks family (ids with four digits in task names, groups, callbacks)", lambda t: thousand_tasks_family())], "C14": [_BSS]}
+FAMILIES = {"C09": [_RC], "C01": [_FS], "C08": [_FS, _DC, ("abandon-then-close family (a task left in asyncio's cancelled state by the user's own cancellation of a flush() caller, healthy tasks still running at gather_and_close)", lambda t: abandon_then_close_family(_thin(t, 2)))], "C02": [_BS, _FS, _DC], "C03": [_TP, _FX, _DC], "C04": [_NR, _BS], "C06": [_WF, _TP, _FR, _FX], "C13": [_FX], "C07": [_NR, _WF, _FS, _DC], "C10": [_NR], "C11": [_BS, _TP, ("thousand-tasks family (ids with four digits in task names, groups, callbacks)", lambda t: thousand_tasks_family())], "C14": [_BSS]}
 
 
 def make(pid: str) -> SimEngine:
